@@ -1,9 +1,9 @@
 """property entries delivered by the range family (merged by tools/merge_shared.py)"""
 PROPS = {
     "C02": dict(
-        coq=["Props.C02"],
+        coq=["Props.C02", "Props.RangeExtra:C02_range"],
         # quick counts sit just above multiples of 150 (the model-evaluation shard size of lib/common.py)
-        fams=[("fam_range", "gen_carry", 304, 12000), ("fam_range", "gen_roundtrip", 152, 6000),
+        fams=[("fam_range", "gen_carry", 304, 12000), ("fam_range", "gen_roundtrip", 152, 6000), ("fam_range", "gen_clear", 120, 5000),
               ("fam_range", "gen_rawparts", 60, 2000)],
         anchors=["src/stream/queue.rs", "src/backends.rs", "notes/range-coding.md"],
         rule="the encoder reached an Inverted situation at least once (>= 1 word held back for a pending carry; "
